@@ -184,6 +184,37 @@ def on_disk(ctx, N, do_model=True):
                     ctx.fail("too-many-tests", f"on disk, n={n} m={m}: {len(o.calls)} tests > bound {bound(n, m)}", case)
 
 
+def second_pass(ctx):
+    """ONE Lithium object is run a second time (the 'please perform another pass' advice) on the file the first pass left:
+    the second pass is a reduction of THAT file — m atoms, all of them core — so it returns it unchanged within the bound
+    for n = m"""
+    from .. import driver, scripts
+    for kind, n, core in (("line", 1024, (700,)), ("line", 300, (5, 150, 299)), ("char", 70, (33,)), ("line", 64, ())):
+        parts = atoms(kind, n)
+        data = b"".join(parts)
+        need = [parts[i] for i in core]
+        s = driver.Session(None, kind=kind, from_file=data)
+        try:
+            def dec(k, disk, need=need, kind=kind):
+                have = set(disk.splitlines(keepends=True)) if kind == "line" else set(bytes([b]) for b in disk)
+                return "a" if all(p in have for p in need) else "r"
+            s.test.decider = dec
+            o1 = s.run(scripts.make_real_strategy("minimize", {}), "r")
+            n1 = len(o1.calls)
+            o2 = s.run(scripts.make_real_strategy("minimize", {}), "r")
+            tests2 = len(o2.calls) - n1
+            m = len(core)
+            case = dict(kind=kind, n=n, core=list(core), m=m, on_disk=True, second_pass_same_object=True)
+            ctx.evaluations += 1
+            ctx.bump("second-pass")
+            if o1.disk != b"".join(need) or o2.disk != b"".join(need):
+                ctx.fail("not-the-core", f"two passes with one Lithium object, n={n} core={list(core)}: the file holds {o2.disk[:60]!r} after the second", case)
+            if tests2 > bound(m, m):
+                ctx.fail("too-many-tests", f"second pass with the same Lithium object on the {m}-atom result of the first: {tests2} tests > bound {bound(m, m)}", case)
+        finally:
+            s.close()
+
+
 def search(ctx):
     reused_strategy(ctx)
     collision_case(ctx, do_model=False)
@@ -198,6 +229,7 @@ def run(ctx) -> int:
     N0 = 10 if ctx.thorough else 8
     collision_case(ctx)
     reused_strategy(ctx)
+    second_pass(ctx)
     on_disk(ctx, 7 if ctx.thorough else 5)
     small(ctx, N0)
     ctx.exhaustive.append(f"every (n, core) with n <= {N0}")
